@@ -78,7 +78,7 @@ def bpms(r):
 
 def plan(tier, seed):
     K = 4 if tier == "quick" else 5
-    shards = [(r, i, K) for r in RES for i in range(5)] + [("subus", r) for r in (192, 960, 480)] + [("long", r) for r in RES] + [("far", r) for r in (1, 192)] + [("unsorted", r) for r in RES] + [("hold", r) for r in (1, 192)]
+    shards = [(r, i, K) for r in RES for i in range(5)] + [("subus", r) for r in (192, 960, 480)] + [("long", r) for r in RES] + [("far", r) for r in (1, 192)] + [("unsorted", r) for r in RES] + [("hold", r) for r in (1, 192)] + [("malformed", r) for r in RES]
     return dict(shards=shards, bounds=dict(resolutions=list(RES), segments=K, gaps=list(GAPS), bpm_thousandths={str(r): list(bpms(r)) for r in RES}), budget_s=900 if tier == "thorough" else 300)
 
 
@@ -102,6 +102,8 @@ def run_shard(shard, ctx):
         return _subus(ctx, shard[1])
     if shard[0] == "far":
         return _far(ctx, shard[1])
+    if shard[0] == "malformed":
+        return _malformed(ctx, shard[1])
     if shard[0] == "hold":
         # a tempo HELD for more ticks than its own value in thousandths (an error of one thousandth of a BPM in the
         # in-segment path grows to a whole tick just before the next change), for values whose float image is inexact
@@ -318,6 +320,30 @@ def _unsorted_across(ctx, r):
                     e1.report(ctx, "monotone", text, srcp, ["monotone", ["raises", "ValueError"]], got, "resolution %d tempo map %r, %s lines in file order %r (stepping back across a tempo change) are ACCEPTED" % (r, [list(x) for x in tempo], kind, list(order)), extra_case=dict(far=[strict, 0]))
                 else:
                     ctx.hist["stepping_back_across_a_tempo_change_accepted_and_monotone"] += 1
+
+
+def _malformed(ctx, r):
+    """Tempo data that C15 calls untrustworthy (no tempo at tick 0, repeated or decreasing tempo ticks). The pinned
+    parser rejects every one of these charts (counted); a parser that hands out a chart for one of them still owes
+    a non-decreasing time - 'within one chart' has no exception for charts that should not exist."""
+    B = bpms(r)
+    maps = []
+    for first in (1, 2, 7):
+        maps += [[(first, B[1])], [(first, B[1]), (first + 7, B[2])], [(first, B[-1]), (first + 1, B[0]), (first + 9, B[2])]]
+    for n0, n1, n2 in ((B[1], B[2], B[0]), (B[2], B[2], B[1]), (B[0], B[-1], B[1])):
+        maps += [[(0, n0), (5, n1), (5, n2)], [(0, n0), (0, n1), (6, n2)], [(0, n0), (6, n1), (0, n2)], [(0, n0), (9, n1), (4, n2)], [(0, n0), (4, n1), (9, n2), (9, n1), (12, n0)]]
+    for tempo in maps:
+        strict = all(n * r <= 3 * 10**10 for _, n in tempo)
+        text = build(r, tempo)
+        got = e1.run_probe(probes[strict], text)
+        ctx.case(("malformed", r, tuple(tempo)), sample=lambda: dict(resolution=r, tempo_lines=[list(x) for x in tempo]))
+        ctx.evaluations += 1
+        if isinstance(got, list) and got[:1] == ["raises"]:
+            ctx.hist["untrustworthy_tempo_data_rejected"] += 1
+        elif got != "monotone":
+            e1.report(ctx, "monotone", text, src(strict), ["monotone", ["raises", "ValueError"]], got, "resolution %d, tempo lines %r (untrustworthy tempo data) are ACCEPTED and the chart's time is not monotone" % (r, [list(x) for x in tempo]), extra_case=dict(strict=strict))
+        else:
+            ctx.hist["untrustworthy_tempo_data_accepted_and_monotone"] += 1
 
 
 def _subus(ctx, r):
